@@ -99,6 +99,16 @@ structure WFUnit (P : WfParams) (rows : Rows) : Prop where
   /-- at most one synthetic unit initialiser -/
   one_init : (rows.filter (isUnitInit P)).length ≤ 1
 
+/-- The clauses that do not depend on which operations a frontend emits — what `flatten` and
+`add_main_func` establish on their own (no side condition in the grammar, no `top_decl`, no
+`one_init`). -/
+structure WFCore (bk : String → Bool) (rows : Rows) : Prop where
+  nested : ∀ (M : Row → Nat → Bool) (inM : Bool), Lvl M NoCond 0 inM none rows
+  ids_unique : (defIds rows).Nodup
+  ids_pos : ∀ r ∈ rows, r.id ≠ 0
+  bodies_exist : ∀ r ∈ rows, r.isMarker = false → ∀ kv ∈ r.attrs, bk kv.1 = true →
+      ∀ b : Int, kv.2 = AVal.int b → ∃ s ∈ rows, s.isStart = true ∧ (s.id : Int) = b ∧ s.parent = r.id
+
 /-- the id ranges of two units do not overlap -/
 def RangesDisjoint (u v : Rows) : Prop :=
   (∀ a ∈ u, ∀ b ∈ v, a.id < b.id) ∨ (∀ a ∈ u, ∀ b ∈ v, b.id < a.id)
